@@ -104,6 +104,60 @@ fn c19_inherit() {
     println!("NONE {}", cases);
 }
 
+use unicode_width::UnicodeWidthStr;
+
+fn render_plain(html: &str, w: usize) -> Option<Result<String, String>> {
+    let h = html.to_string();
+    match panic::catch_unwind(move || config::plain().string_from_read(h.as_bytes(), w)) {
+        Ok(Ok(s)) => Some(Ok(s)),
+        Ok(Err(e)) => Some(Err(format!("{:?}", e))),
+        Err(_) => None,
+    }
+}
+
+fn table_docs() -> Vec<String> {
+    let cells = ["", "a", "ccc", "eeeeeeeeee", "\u{4e2d}\u{6587}"];
+    let mut docs = Vec::new();
+    // two rows; first row two cells, second row one cell with colspan 1..3 (+ optional extra cell)
+    for a in cells { for b in cells { for c in cells { for span in 1..=3 {
+        docs.push(format!("<table><tr><td>{}<td>{}<tr><td colspan={}>{}</table>", a, b, span, c));
+        docs.push(format!("<table><tr><td colspan={}>{}<tr><td>{}<td>{}<td>{}</table>", span, c, a, b, a));
+    }}}}
+    docs
+}
+
+/// C02 (tables): every output line is at most `width` columns wide
+fn c02_tables() {
+    let mut cases = 0u64;
+    for d in table_docs() { for w in 1..=14usize {
+        cases += 1;
+        match render_plain(&d, w) {
+            Some(Ok(s)) => for l in s.lines() {
+                if UnicodeWidthStr::width(l) > w { found("c02_tables", &format!("width={} html={}", w, d), &format!("line {:?} is {} columns wide", l, UnicodeWidthStr::width(l))); }
+            },
+            Some(Err(_)) => {}
+            None => found("c02_tables", &format!("width={} html={}", w, d), "panic"),
+        }
+    }}
+    println!("NONE {}", cases);
+}
+
+/// C03/C06 (tables): every non-space character of every cell appears in the output
+fn c03_tables() {
+    let mut cases = 0u64;
+    for d in table_docs() { for w in 1..=14usize {
+        cases += 1;
+        if let Some(Ok(s)) = render_plain(&d, w) {
+            for ch in ['a', 'c', 'e', '\u{4e2d}'] {
+                let want = d.matches(ch).count() - if ch == 'a' { d.matches("table").count() + d.matches("span").count() } else if ch == 'c' { d.matches("colspan").count() } else if ch == 'e' { d.matches("table").count() } else { 0 };
+                let got = s.matches(ch).count();
+                if got != want { found("c03_tables", &format!("width={} html={}", w, d), &format!("character {:?} occurs {} times in the cells but {} times in the output {:?}", ch, want, got, s)); }
+            }
+        }
+    }}
+    println!("NONE {}", cases);
+}
+
 fn main() {
     let mode = std::env::args().nth(1).unwrap_or_default();
     panic::set_hook(Box::new(|_| {}));
@@ -111,6 +165,8 @@ fn main() {
         "c19" => c19(),
         "c19_inherit" => c19_inherit(),
         "dbg" => dbg(),
+        "c02_tables" => c02_tables(),
+        "c03_tables" => c03_tables(),
         _ => { eprintln!("unknown mode"); std::process::exit(2) }
     }
 }
